@@ -30,10 +30,10 @@ package yaml
 
 //@ func (y *Yaml) Array() ([]*Yaml, error)
 //@   requires y != nil
-//@   ensures [C15:elements-in-order] (deref(y).data != nil && deref(deref(y).data).Kind == 2) ==> (result1 == nil && len(result0) == len(deref(deref(y).data).Content) && (forall j int :: 0 <= j && j < len(result0) ==> (result0[j] != nil && deref(result0[j]).data == deref(deref(y).data).Content[j])))
+//@   ensures [C15:elements-in-order] (deref(y).data != nil && deref(deref(y).data).Kind == 2) ==> (result1 == nil && len(result0) == len(deref(deref(y).data).Content) && (forall j int :: 0 <= j && j < len(result0) ==> (result0[j] != nil && deref(result0[j]).data == deref(deref(y).data).Content[j] && deref(result0[j]).data != nil)))
 //@   ensures [C15:not-a-sequence] !(deref(y).data != nil && deref(deref(y).data).Kind == 2) ==> result1 != nil
 //@   loop 1 /* for _, n := range y.data.Content */
-//@     invariant [C15] len(acc) == #i && (forall j int :: 0 <= j && j < #i ==> (acc[j] != nil && ref(acc[j]) <= alloc && deref(acc[j]).data == deref(deref(y).data).Content[j]))
+//@     invariant [C15] len(acc) == #i && (forall j int :: 0 <= j && j < #i ==> (acc[j] != nil && ref(acc[j]) <= alloc && deref(acc[j]).data == deref(deref(y).data).Content[j] && deref(acc[j]).data != nil))
 
 //@ func (y *Yaml) GetIndex(index int) *Yaml
 //@   requires y != nil && index >= 0
